@@ -2142,7 +2142,12 @@ def _make_promotion_decls(
 
     declarations: List[VarDecl] = []
     for name in promoted_names:
-        cpp_type = promotion_info.get(name, _cpp_type(var_types.get(name, "int")))
+        # the type recorded for this scope wins: the promotion table is shared between
+        # scopes and may still hold the type of a same-named variable of another function
+        if name in var_types:
+            cpp_type = _cpp_type(var_types[name])
+        else:
+            cpp_type = promotion_info.get(name, "int")
         decl = VarDecl(
             name=name,
             c_type=cpp_type,
